@@ -22,3 +22,5 @@ mod c31;
 mod c13;
 #[cfg(all(kani, feature = "c20"))]
 mod c20;
+#[cfg(all(kani, feature = "c21"))]
+mod c21;
